@@ -25,6 +25,12 @@ checks = {
  "C17": dict(design="4/C17", technique="TLC enumeration of the dirs family of Engine.tla (directives as rule-list rewriting ApplyDir, ctl as run-time state) replayed on the real library, two consecutive transactions per WAF",
    text="Every exclusion/update directive is defined in Engine.tla as a rewriting of the rule list and every ctl counterpart as run-time interpreter state; TLC enumerates a base rule set x all directive shapes (single ids, lists, ranges, tags, messages; additions and exclusions; disruptive and non-disruptive action updates) and ctl placements x requests; the real library compiling the directive form must behave like the specification's rewritten rule set, also for the next transaction on the same WAF.",
    note="Trusts TLC and the renderer. Updates that mix additions and exclusions in one directive are not generated (their relative scope is not documented)."),
+ "C02": dict(design="4/C02", engine="tlc-tx", technique="TLC model checking of Tx.tla (Transaction API state machine over Engine.tla; invariants AtMostOnce, InterruptFinal, SameInterruptionReported, DetectionOnlySilent, ...; all reachable states for unbounded call sequences) + replay of every edge of the state graph (witness path + call) on a real transaction",
+   text="The public Transaction API is an explicit TLA+ state machine; the abstract state is finite, so TLC visits every reachable state for call sequences of any length and evaluates the lifecycle invariants there; every edge (state, call) is replayed through a witness path on a real transaction built from /repo and the returned and recorded interruption, the fired marker rules (= evaluation counts), last phase and engine mode are compared with the specified successor.",
+   note="Trusts TLC, the renderer and the projection (LastPhase / RuleEngine / DetectionOnlyInterruption through internal accessors). Calls after Close and repeated ProcessLogging are not generated. What happens to bytes offered after a refusal is left open."),
+ "C10": dict(design="4/C10", engine="tlc-tx", technique="TLC model checking of the body buffers of Tx.tla (bytes = positions of the supplied stream; invariants Faithful, RejectExact, PartialExact, BodyVarIsStoredPrefix over all chunkings and entry-point mixes) + replay of every edge on a real transaction at sizes x1, x4096 (x40000)",
+   text="Body buffering is modelled with bytes identified by their position in the supplied stream, so byte-faithfulness and the limit relations are state invariants that TLC checks over every partition into chunks, every mix of slice / known-length reader / unknown-length reader writes and both limit actions; every edge is replayed on a real transaction (memory limit below the hard limit, so bodies spill to disk) comparing bytes taken, reader contents, REQUEST_BODY seen by the body phase, the data-error variables and the refusal.",
+   note="Trusts TLC and the projection. The byte count returned together with a refusal, and the buffer content after a refusal, are left open."),
 }
 
 not_built_reason = "check under construction in this session (see DESIGN.md section 4); not claimed until its machinery is committed"
@@ -40,6 +46,7 @@ manifest = {
    "add_only": True,
  },
  "engines": [
+   {"name":"tlc-tx","path":"spec/Tx.tla, spec/Tx_MC.tla","serves_properties":["C02","C10","C18","C05","C20"],"kind_free_text":"TLA+ specification of the Transaction API and body buffers on top of Engine.tla; TLC explores all call sequences, every edge replayed on a real transaction"},
    {"name":"tlc-engine","path":"spec/Engine.tla, spec/Scen.tla, spec/Engine_MC.tla, spec/Engine_Trace.tla","serves_properties":["C01","C04","C08","C09","C12","C17"],"kind_free_text":"TLA+ specification of the rule interpreter; TLC enumerates scenarios + allowed outcomes (spec->code replay) and validates recorded executions (code->spec)"},
  ],
  "checks": [],
@@ -55,7 +62,7 @@ for i in ids:
           "thorough_cmd": f"./check {i} thorough",
           "evidence_file": f"/verif/evidence/{i}.json",
           "replay_cmd_template": f"./check {i} quick --replay {{path}}",
-          "engine": "tlc-engine",
+          "engine": c.get("engine", "tlc-engine"),
           "level_claimed": {"category": MC, "text": c["text"], "design_ref": c["design"]},
           "level_note": c["note"],
           "technique": c["technique"],
